@@ -391,7 +391,7 @@ func TestC07Codec(t *testing.T) {
 		}
 		if msg != "" {
 			rec.Violation("exclusion", msg, c)
-			rt.Fatalf("%s", msg)
+			rt.Fatalf("property violated (details in the replay file)")
 		}
 	})
 }
